@@ -10,8 +10,8 @@ Four sub-checks
 * ``reports``  HTML, LaTeX, F12 and the printed form are *read back* (table rows, fixed columns) and
   must show every estimated parameter with its value.
 * ``history``  sequences of output-generating operations in one scratch directory that already
-  contains files named like future outputs: no pre-existing file is touched, every reported output
-  name was free.
+  contains files named like future outputs (names plain, in a sub-directory, './name', absolute): no
+  pre-existing file is touched, every reported output name was free.
 
 All file work happens in a private ``tempfile.mkdtemp()`` inside a forked child.
 """
@@ -63,7 +63,10 @@ ASSUMPTIONS = [
     'trip is continued with Item.comment of tomlkit<0.13 (stores the text unchanged), biogeme code untouched',
     'a report shows a value if the cell/field read back as a number agrees to 3 significant digits '
     '(HTML, LaTeX, printed form) or 1e-11 relative (F12); F12 labels are the first 10 characters',
-    'file names: no path separators; snapshot = sha256 + size of every regular file in the directory',
+    'file names may carry a directory part inside the scratch directory (sub/name, ./name, absolute); snapshot = '
+    'sha256 + size of every regular file below the scratch directory, names compared after normalisation',
+    'a model named X~NN is indistinguishable from the NN-th later file of model X by design: such pairs are '
+    'not generated for the recycle scenarios',
 ]
 BUDGETS = dict(quick=dict(shards=8), thorough=dict(shards=16))
 
@@ -103,6 +106,7 @@ BETA_NAMES = [
 ]
 MODEL_NAMES = ['m', 'm~00', 'my model', 'logit.v2', '01logit', 'b_dumped', 'nested_été']
 GLOB_MODEL_NAMES = ['logit[1]', 'spec*', 'what?']
+SIBLING_SUFFIXES = ['_bis', '2', '~', ' (2)', '.v2', '_1', 'x', '~bis', '-b']
 DATA_NAMES = ['swissmetro', 'test', 'my data', 'm', 'd.2024']
 USER_NOTES = [None, 'Example notes', 'first line; 50% of B_TIME, see <b>doc</b> & more']
 
@@ -418,6 +422,18 @@ def _observe_pickle_here(spec):
     rs = spec['results']
     res = dict(stage='construct')
     r1 = make_results(lib, rs)
+    siblings = spec.get('siblings') or []
+
+    def save_siblings():
+        saved = []
+        for sib in siblings:
+            rsib = make_results(lib, sib)
+            saved.append(dict(model=sib['model'], file=rsib.write_pickle(), obs=observables(rsib, light=True)))
+        res['siblings'] = saved
+
+    if siblings and spec.get('siblings_first'):
+        res['stage'] = 'siblings'
+        save_siblings()
     res['stage'] = 'pre_writes'
     for w in spec['pre_writes']:
         dict(html=r1.write_html, latex=r1.write_latex, f12=r1.write_f12)[w]()
@@ -439,6 +455,9 @@ def _observe_pickle_here(spec):
         res['stage'] = 'load_2'
         r3 = lib.res.bioResults(pickle_file=name2, identification_threshold=rs['threshold'])
         res['obs2'] = observables(r3)
+    if siblings and not spec.get('siblings_first'):
+        res['stage'] = 'siblings'
+        save_siblings()
     if spec['recycle']:
         res['stage'] = 'recycle'
         before = sorted(os.listdir('.'))
@@ -450,7 +469,16 @@ def _observe_pickle_here(spec):
         np.random.seed(spec['np_seed'])
         r4 = the.estimate(recycle=True)
         res['obs_recycle'] = observables(r4)
+        for saved, sib in zip(res.get('siblings', []), siblings):
+            res['stage'] = 'recycle_sibling'
+            the = _tiny_biogeme(sib['model'], spec['np_seed'])
+            the.generate_html = False
+            the.generate_pickle = False
+            if sib['threshold'] is not None:
+                the.identification_threshold = sib['threshold']
+            saved['obs_recycle'] = observables(the.estimate(recycle=True), light=True)
         res['recycle_new_files'] = sorted(set(os.listdir('.')) - set(before))
+        res['files'] = sorted(os.listdir('.'))
     res['stage'] = 'done'
     return res
 
@@ -517,7 +545,35 @@ def judge_pickle(spec) -> Outcome:
         if v['name2'] == v['name']:
             out.fail('pickle:second_write:same_name', f'{what}: second write_pickle reused {v["name"]!r}')
         _diff_obs(out, v['obs0'], v['obs2'], 'pickle:roundtrip2', what + ' [second generation]')
-    if 'obs_recycle' in v:
+    def recycle_compare(model, saved_obs, got_obs, file_name):
+        """estimate(recycle=True) of `model` must give the results saved for that model."""
+        probe_ = Outcome()
+        _diff_obs(probe_, saved_obs, got_obs, 'pickle:recycle',
+                  f'model {model!r} [estimate(recycle=True) with its own {file_name!r} among {v["files"]}]')
+        if not probe_.failures:
+            return
+        loaded = got_obs.get('data:modelName')
+        if isinstance(loaded, str) and loaded != model and loaded in [rs['model']] + [x['model'] for x in siblings]:
+            # the results of another model saved in the same directory came back
+            tag = 'tilde_suffix_name' if loaded.startswith(model + '~') else 'other_name'
+            out.fail(f'pickle:recycle:loads_other_model:{tag}',
+                     f'estimate(recycle=True) of model {model!r} returns the results saved for model {loaded!r} '
+                     f'(files: {v["files"]}; its own results are in {file_name!r})')
+        else:
+            out.failures.extend(probe_.failures)
+
+    siblings = spec.get('siblings') or []
+    if siblings:
+        out.classes.append('recycle:sibling_models=' + '+'.join(
+            sorted({'suffix ' + repr(x['model'][len(rs['model']):]) if x['model'].startswith(rs['model'])
+                    else 'prefix (target has suffix ' + repr(rs['model'][len(x['model']):]) + ')'
+                    for x in siblings})))
+    if 'obs_recycle' in v and siblings:
+        recycle_compare(rs['model'], {k: x for k, x in v['obs0'].items()}, v['obs_recycle'], v['name'])
+        for saved in v.get('siblings', []):
+            if 'obs_recycle' in saved:
+                recycle_compare(saved['model'], saved['obs'], saved['obs_recycle'], saved['file'])
+    elif 'obs_recycle' in v:
         probe = Outcome()
         _diff_obs(probe, v['obs0'], v['obs_recycle'], 'pickle:recycle',
                   what + f' [estimate(recycle=True) with {v["name"]!r} present]')
@@ -534,12 +590,26 @@ def judge_pickle(spec) -> Outcome:
 
 @st.composite
 def strat_pickle(draw, tier):
-    recycle = draw(st.integers(0, 5)) == 5
+    recycle = draw(st.integers(0, 5)) >= 4
     rs = draw(results_specs(max_k=6 if tier == 'thorough' else 5, glob_names=recycle))
     pre = draw(st.lists(st.sampled_from(['html', 'latex', 'f12']), max_size=2, unique=True)) \
         if rs['hessian'] is not None else []
+    siblings, first = [], False
+    if recycle and draw(st.integers(0, 2)) >= 1:
+        # other models saved in the same directory whose names extend this model's name, or the reverse
+        # (not '~NN': that is the numbering of the model's own later files)
+        suffixes = draw(st.lists(st.sampled_from(SIBLING_SUFFIXES), min_size=1, max_size=2, unique=True))
+        base = rs['model']
+        if draw(st.booleans()):
+            rs['model'] = base + suffixes[0]       # the target carries the suffix, a sibling is its proper prefix
+            names = [base] + [base + x for x in suffixes[1:]]
+        else:
+            names = [base + x for x in suffixes]
+        for n in names:
+            siblings.append(draw(results_specs(max_k=2, allow_none=False, model_names=[n])))
+        first = draw(st.booleans())
     return dict(results=rs, pre_writes=pre, generations=draw(st.sampled_from([1, 1, 2])),
-                recycle=recycle, np_seed=draw(st.integers(0, 2**31 - 1)))
+                recycle=recycle, siblings=siblings, siblings_first=first, np_seed=draw(st.integers(0, 2**31 - 1)))
 
 
 # =============================================================================================
@@ -968,19 +1038,60 @@ def render_toml(spec):
 # sub-check 4: histories of output generation in one directory
 
 OUTPUT_EXT = dict(write_pickle='pickle', write_html='html', write_latex='tex', write_f12='F12')
-HISTORY_MODEL_NAMES = ['m', 'm~00', 'my model', 'm.v2', 'm_1']
-HISTORY_DB_NAMES = ['m', 'data', 'm~00', 'my data']
-BACKUP_FILES = ['m.html', 'notes.txt', 'notes_1.txt', 'archive.tar.gz', 'noext', 'm.pickle']
+# names may carry a directory part: relative (sub-directory of the scratch directory), './name', or
+# absolute ('<ABS>' stands for the scratch directory, substituted in the child)
+ABS = '<ABS>'
+HISTORY_MODEL_NAMES = ['m', 'm~00', 'my model', 'm.v2', 'm_1', 'sub/m', './m', ABS + '/m', 'sub/my model',
+                       ABS + '/sub/m']
+HISTORY_DB_NAMES = ['m', 'data', 'm~00', 'my data', 'sub/data', './m', ABS + '/data']
+FRESH_BASES = ['fresh', 'sub/fresh', './fresh', ABS + '/fresh']
+BACKUP_FILES = ['m.html', 'notes.txt', 'notes_1.txt', 'archive.tar.gz', 'noext', 'm.pickle', 'sub/notes.txt',
+                './notes.txt', ABS + '/m.html', ABS + '/sub/notes.txt']
+SUBDIRS = ['sub']
+
+
+def _logical(name):
+    """Path relative to the scratch directory that a (possibly './' or '<ABS>/' prefixed) name denotes."""
+    return os.path.normpath(name.replace(ABS + '/', ''))
+
+
+def _path_classes(names):
+    cl = set()
+    for n in names:
+        if n.startswith(ABS):
+            cl.add('path:absolute')
+        elif n.startswith('./'):
+            cl.add('path:dot_slash')
+        elif '/' in n:
+            cl.add('path:sub_directory')
+    return sorted(cl)
+
+
+def _real(name, cwd):
+    return name.replace(ABS, cwd) if isinstance(name, str) else name
+
+
+def _rel(path, cwd):
+    """What a name returned by the library denotes, relative to the scratch directory."""
+    if not isinstance(path, str):
+        return path
+    return os.path.relpath(os.path.realpath(os.path.abspath(path)), os.path.realpath(cwd))
+
+
+def _shown(path, cwd):
+    return path.replace(cwd, ABS) if isinstance(path, str) else path
 
 
 def _snapshot():
     snap = {}
-    for fn in sorted(os.listdir('.')):
-        if os.path.isfile(fn):
-            with open(fn, 'rb') as f:
-                data = f.read()
-            snap[fn] = [len(data), hashlib.sha256(data).hexdigest()]
-    return snap
+    for root, _dirs, files in os.walk('.'):
+        for fn in files:
+            full = os.path.join(root, fn)
+            if os.path.isfile(full):
+                with open(full, 'rb') as f:
+                    data = f.read()
+                snap[os.path.normpath(full)] = [len(data), hashlib.sha256(data).hexdigest()]
+    return dict(sorted(snap.items()))
 
 
 def _read_text(name):
@@ -996,12 +1107,15 @@ def _observe_history(spec):
 
 def _observe_history_here(spec):
     lib = _lib()
+    cwd = os.getcwd()
     np.random.seed(spec['np_seed'])
+    for d in SUBDIRS:
+        os.makedirs(d, exist_ok=True)
     for name, content in spec['seeds']:
-        with open(name, 'w', encoding='utf-8') as f:
+        with open(os.path.join(cwd, _logical(name)), 'w', encoding='utf-8') as f:
             f.write(f'pre-existing file {name} #{content}\n' * (1 + content % 3))
-    results = [make_results(lib, rs) for rs in spec['results']]
-    dbs = [lib.db.Database(name, pd.DataFrame({'x': [1.0 + i, 2.0, 3.5], 'y': [0, 1, i]}))
+    results = [make_results(lib, dict(rs, model=_real(rs['model'], cwd))) for rs in spec['results']]
+    dbs = [lib.db.Database(_real(name, cwd), pd.DataFrame({'x': [1.0 + i, 2.0, 3.5], 'y': [0, 1, i]}))
            for i, name in enumerate(spec['databases'])]
     steps = []
     for op in spec['ops']:
@@ -1035,15 +1149,16 @@ def _observe_history_here(spec):
             elif kind == 'dump_on_file':
                 step['reported'] = dbs[op[1]].dump_on_file()
             elif kind == 'new_name':
-                step['reported'] = lib.bf.get_new_file_name(op[1], op[2])
+                step['reported'] = lib.bf.get_new_file_name(_real(op[1], cwd), op[2])
                 if op[3] and isinstance(step['reported'], str) and not os.path.exists(step['reported']):
                     with open(step['reported'], 'w', encoding='utf-8') as f:
                         f.write('written by the caller of get_new_file_name\n')
                     step['extra']['created_by_harness'] = step['reported']
             elif kind == 'create_backup':
-                step['reported'] = lib.tf.create_backup(op[1], rename=op[2])
+                step['extra']['src_rel'] = _rel(_real(op[1], cwd), cwd)
+                step['reported'] = lib.tf.create_backup(_real(op[1], cwd), rename=op[2])
             elif kind == 'estimate':
-                the = _tiny_biogeme(op[1], spec['np_seed'])
+                the = _tiny_biogeme(_real(op[1], cwd), spec['np_seed'])
                 the.generate_html = True
                 the.generate_pickle = True
                 r = the.estimate()
@@ -1058,6 +1173,17 @@ def _observe_history_here(spec):
 
             step['exc'] = [type(e).__name__, str(e)[:300], traceback.format_exc(limit=6)[-600:]]
         step['after'] = _snapshot()
+        # names as the library reported them (scratch directory shown as <ABS>) and what they denote
+        outputs = [step['reported']] + ([step['extra']['second_output']] if 'second_output' in step['extra'] else [])
+        step['outputs_rel'] = [_rel(o, cwd) for o in outputs]
+        step['reported_rel'] = _rel(step['reported'], cwd)
+        step['reported'] = _shown(step['reported'], cwd)
+        for k in ('recorded', 'second_output', 'created_by_harness'):
+            if k in step['extra']:
+                step['extra'][k + '_rel'] = _rel(step['extra'][k], cwd)
+                step['extra'][k] = _shown(step['extra'][k], cwd)
+        if step['exc']:
+            step['exc'] = [_shown(x, cwd) for x in step['exc']]
         steps.append(step)
     return steps
 
@@ -1069,7 +1195,7 @@ def judge_history(spec) -> Outcome:
     for op in ops:
         target = (op[0], op[1]) if op[0] != 'new_name' else (op[0], op[1], op[2])
         counts[target] = counts.get(target, 0) + 1
-    seed_names = {s[0] for s in spec['seeds']}
+    seed_names = {_logical(s[0]) for s in spec['seeds']}
     bases = set()
     for op in ops:
         if op[0] in OUTPUT_EXT:
@@ -1081,9 +1207,14 @@ def judge_history(spec) -> Outcome:
         elif op[0] == 'estimate':
             bases.add((op[1], 'html'))
             bases.add((op[1], 'pickle'))
+    bases = {(_logical(b), e) for b, e in bases}
     collision = any(f'{b}.{e}' in seed_names for b, e in bases)
     gap = any(f'{b}.{e}' in seed_names and f'{b}~00.{e}' not in seed_names and
               any(f'{b}~{i:02d}.{e}' in seed_names for i in range(1, 6)) for b, e in bases)
+    used_names = [spec['results'][op[1]]['model'] for op in ops if op[0] in OUTPUT_EXT]
+    used_names += [spec['databases'][op[1]] for op in ops if op[0] == 'dump_on_file']
+    used_names += [op[1] for op in ops if op[0] in ('new_name', 'create_backup', 'estimate')]
+    out.classes += _path_classes(used_names)
     out.nontrivial = max(counts.values(), default=0) >= 3 and collision
     out.classes += sorted({f'op:{op[0]}' for op in ops})
     out.classes.append(f'ops={min(len(ops), 12) // 4 * 4}+')
@@ -1107,24 +1238,22 @@ def judge_history(spec) -> Outcome:
         removed = sorted(n for n in before if n not in after)
         changed = sorted(n for n in before if n in after and after[n] != before[n])
         added = sorted(n for n in after if n not in before)
-        reported = step['reported']
-        moved_ok = False
+        reported, reported_rel = step['reported'], step['reported_rel']
         if kind == 'create_backup' and not step['exc']:
-            src = op[1]
+            src = step['extra']['src_rel']
             if src not in before:
                 if reported is not None or added or removed or changed:
                     out.fail('history:create_backup:no_source',
                              f'{where}: nothing to back up, yet returned {reported!r}, added {added}, removed {removed}')
                 continue
-            if not isinstance(reported, str) or reported in before:
+            if not isinstance(reported, str) or reported_rel in before:
                 out.fail('history:create_backup:name_existed',
                          f'{where}: backup name {reported!r} ' +
                          ('already existed' if isinstance(reported, str) else 'is not a name'))
-            elif after.get(reported) != before[src]:
+            elif after.get(reported_rel) != before[src]:
                 out.fail('history:create_backup:content',
                          f'{where}: backup {reported!r} does not hold the content of {src!r}')
             if op[2]:
-                moved_ok = True
                 removed = [n for n in removed if n != src]
                 if src in after:
                     out.fail('history:create_backup:source_kept', f'{where}: {src!r} still exists after rename')
@@ -1137,8 +1266,7 @@ def judge_history(spec) -> Outcome:
             out.fail(f'history:{kind}:removes_existing', f'{where}: pre-existing file(s) {removed} disappeared')
         if kind == 'create_backup' or step['exc']:
             continue
-        outputs = [reported] + ([step['extra']['second_output']] if 'second_output' in step['extra'] else [])
-        for name in outputs:
+        for name in step['outputs_rel']:
             if not isinstance(name, str):
                 out.fail(f'history:{kind}:no_name', f'{where}: no output name reported ({name!r})')
                 continue
@@ -1175,7 +1303,7 @@ def strat_history(draw, tier):
     # pre-existing files named like future outputs
     bases = [(m, e) for m in model_names for e in ('html', 'pickle', 'tex', 'F12')]
     bases += [(d + '_dumped', 'dat') for d in databases]
-    bases += [('fresh', 'txt')]
+    bases += [(f, 'txt') for f in FRESH_BASES]
     seeds = {}
     for b, e in bases:
         pattern = draw(st.sampled_from(['none', 'none', 'plain', 'plain+00', 'plain+00+01', 'plain+01',
@@ -1184,17 +1312,17 @@ def strat_history(draw, tier):
                       ('plain+01', [None, 1]), ('plain+00+02', [None, 0, 2]), ('00 only', [0]),
                       ('plain+03', [None, 3]), ('plain+00..04', [None, 0, 1, 2, 3, 4])])[pattern]
         for w in which:
-            seeds[f'{b}.{e}' if w is None else f'{b}~{w:02d}.{e}'] = draw(st.integers(0, 99))
-    for fn in draw(st.lists(st.sampled_from(BACKUP_FILES + ['m_1.html', 'notes_2.txt', 'noext_1']), max_size=4,
-                            unique=True)):
-        seeds.setdefault(fn, draw(st.integers(0, 99)))
+            seeds[_logical(f'{b}.{e}' if w is None else f'{b}~{w:02d}.{e}')] = draw(st.integers(0, 99))
+    for fn in draw(st.lists(st.sampled_from(BACKUP_FILES + ['m_1.html', 'notes_2.txt', 'noext_1', 'sub/notes_1.txt']),
+                            max_size=5, unique=True)):
+        seeds.setdefault(_logical(fn), draw(st.integers(0, 99)))
     one_op = st.one_of(
         st.tuples(st.just('write_pickle'), st.integers(0, n_res - 1)).map(list),
         st.tuples(st.just('write_html'), st.integers(0, n_res - 1), st.booleans()).map(list),
         st.tuples(st.just('write_latex'), st.integers(0, n_res - 1)).map(list),
         st.tuples(st.just('write_f12'), st.integers(0, n_res - 1), st.booleans()).map(list),
         st.tuples(st.just('dump_on_file'), st.integers(0, len(databases) - 1)).map(list),
-        st.tuples(st.just('new_name'), st.sampled_from(model_names + ['fresh']),
+        st.tuples(st.just('new_name'), st.sampled_from(model_names + FRESH_BASES),
                   st.sampled_from(['html', 'pickle', 'txt']), st.booleans()).map(list),
         st.tuples(st.just('create_backup'), st.sampled_from(BACKUP_FILES), st.booleans()).map(list),
     )
@@ -1222,9 +1350,11 @@ SUBCHECKS = [
              f" pre_writes={s['pre_writes']} generations={s['generations']} recycle={s['recycle']}",
              dict(quick=480, thorough=20000),
              'synthetic results (K=1..5, Hessian negative definite / singular / indefinite / absent, optional '
-             'bootstrap, bounds, null log likelihood) -> write_pickle -> load (twice; 1 in 6 also through '
-             'estimate(recycle=True)); every table, statistic, report and raw field equal; non-trivial: K >= 2 '
-             'with second-order statistics'),
+             'bootstrap, bounds, null log likelihood) -> write_pickle -> load (twice; 1 in 3 also through '
+             'estimate(recycle=True), two thirds of those with 1-2 other models saved in the same directory '
+             'whose names extend the model name by _bis, 2, ~, .v2, ... or are a proper prefix of it: recycle '
+             'must return this model\'s own saved results); every table, statistic, report and raw field equal; '
+             'non-trivial: K >= 2 with second-order statistics'),
     SubCheck('toml', strat_toml, judge_toml, render_toml, dict(quick=800, thorough=30000),
              'any subset of the 27 parameters set to admissible values (both booleans, every algorithm name, '
              'integers up to 1e40, floats 5e-324..inf, arbitrary text) -> dump_file -> (boolean respelling, '
@@ -1237,7 +1367,8 @@ SUBCHECKS = [
              'with second-order statistics'),
     SubCheck('history', strat_history, judge_history, render_history, dict(quick=480, thorough=15000),
              '1-18 operations {write_pickle, write_html, write_latex, write_f12, dump_on_file, get_new_file_name '
-             '(+caller creates the file), create_backup, estimate} in a directory seeded with m.ext, m~NN.ext '
-             '(gaps), *_dumped.dat, backup names; non-trivial: >= 3 writes of one kind and a seeded collision'),
+             '(+caller creates the file), create_backup, estimate} in a directory (with a sub-directory) seeded '
+             'with m.ext, m~NN.ext (gaps), *_dumped.dat, backup names; model / database / file names plain, '
+             'sub/name, ./name or absolute; non-trivial: >= 3 writes of one kind and a seeded collision'),
 ]
 RULE = ' | '.join(f'{s.name}: {s.rule}' for s in SUBCHECKS)
